@@ -1672,7 +1672,7 @@ long mertens(const unsigned long a)
 integer_class mp_polygonal_number(const integer_class &s,
                                   const integer_class &n)
 {
-    auto res = ((s - 2) * n * n - (s - 4) * n) / 2;
+    integer_class res = ((s - 2) * n * n - (s - 4) * n) / 2;
     return res;
 }
 
